@@ -372,6 +372,7 @@ func runC06(cx *CheckCtx) {
 // elements x of its source list with x.State != offline.
 func filterShape(tb *TermBuilder, fn *ssa.Function, offline int64) (bool, string) {
 	var app *ssa.Call
+	viaWrapper := false
 	for _, b := range fn.Blocks {
 		for _, ins := range b.Instrs {
 			if c, ok := ins.(*ssa.Call); ok {
@@ -381,6 +382,13 @@ func filterShape(tb *TermBuilder, fn *ssa.Function, offline int64) (bool, string
 					}
 					app = c
 				}
+				// a helper of the package that is nothing but `return append(list, item)` is an append
+				if cal := c.Common().StaticCallee(); cal != nil && cal.Pkg == fn.Pkg && isAppendWrapper(cal) {
+					if app != nil {
+						return false, "more than one append in the filter"
+					}
+					app, viaWrapper = c, true
+				}
 			}
 		}
 	}
@@ -388,6 +396,9 @@ func filterShape(tb *TermBuilder, fn *ssa.Function, offline int64) (bool, string
 		return false, "the filter no longer appends candidates to its result"
 	}
 	base, elems, _ := appendOf(app)
+	if viaWrapper {
+		base, elems = stripConv(app.Common().Args[0]), []ssa.Value{stripConv(app.Common().Args[1])}
+	}
 	if len(elems) != 1 {
 		return false, "the filter appends something other than one candidate per step"
 	}
@@ -1225,4 +1236,18 @@ func checkStoredDivisors(cx *CheckCtx, c *Contract) {
 	cx.count("divisor_writers", nW)
 	cx.floor("stored_divisors", 1)
 	cx.floor("divisor_writers", 2)
+}
+
+// isAppendWrapper: fn is `func(list []T, item T) []T { return append(list, item) }`.
+func isAppendWrapper(fn *ssa.Function) bool {
+	if fn == nil || len(fn.Blocks) != 1 || len(fn.Params) != 2 {
+		return false
+	}
+	b := fn.Blocks[0]
+	r, ok := b.Instrs[len(b.Instrs)-1].(*ssa.Return)
+	if !ok || len(r.Results) != 1 {
+		return false
+	}
+	base, elems, isApp := appendOf(r.Results[0])
+	return isApp && base == ssa.Value(fn.Params[0]) && len(elems) == 1 && elems[0] == ssa.Value(fn.Params[1])
 }
